@@ -1,8 +1,9 @@
 """C05 (partial): every trie operation routes every TrieStorage variant to a back end of the same
 strategy that consumes the key; create_storage maps each strategy to its storage; num_keys is
-maintained only by insert/remove/clear; the Patricia pruning loop of remove stops at final nodes (R-PRUNE)."""
+maintained only by insert/remove/clear; the Patricia pruning loop of remove stops at final nodes (R-PRUNE);
+the DAWG state signature covers every state flag that lookups read (R-SIGNATURE)."""
 from vlib import fixtures
-from rules import variant, prune
+from rules import variant, prune, signature
 from vlib.mir import Fn, op_place, rv_operands
 from vlib.run import Broken
 
@@ -15,10 +16,13 @@ OPS = ("::insert", "::contains", "::remove", "::keys", "::keys_with_prefix",
 
 def run(ctx):
     fx = ctx.facts("default")
-    fixtures.run(ctx, ['variant', 'prune'])
+    fixtures.run(ctx, ['variant', 'prune', 'signature'])
     # removal unlinks dead-end chains but stops at nodes that are keys themselves
     prune.run(ctx, fx, FILE, "fsa::zipora_trie::PatriciaNode")
     ctx.floor("R-PRUNE.unlink_loops", 1)
+    # DAWG minimisation: the state signature covers every flag that lookups read
+    signature.run(ctx, fx, "src/fsa/dawg.rs", "fsa::dawg::DawgState")
+    ctx.floor("R-SIGNATURE.flags", 1)
     ops = variant.run(ctx, fx, FILE, ENUM, "ZiporaTrie::storage",
                       only=lambda fid: any(fid.endswith(o) for o in OPS))
     ctx.floor("R-VARIANT.operations", 8)
